@@ -458,6 +458,7 @@ def run_check(check, tier, seed):
         'held_concrete': counts.get('held-concrete', 0),
         'violation_concrete': counts.get('violation-concrete', 0),
         'solver_ms_total': solver_ms,
+        'solver_queries': sum(int(r.get('queries') or (1 if r.get('verdict') in ('unsat', 'sat', 'unknown') else 0)) for r in results),
         'functions_encoded': desc['functions'],
         'bounds': desc['bounds'],
         'outside_claim': desc['outside'],
